@@ -1,5 +1,5 @@
 CONSTANT Repaired = TRUE
-CONSTANT AETexts = {"absent", "gzip", "gzip, br", "zstd, gzip", "gzip, deflate, br, zstd", "br", "zstd", "identity", "*", "gzip;q=0", "br, gzip;q=0", "gzip;q=0.5, zstd", "x-gzip"}
+CONSTANT AETexts = {"absent", "gzip", "gzip, br", "zstd, gzip", "gzip, deflate, br, zstd", "br", "zstd", "identity", "*", "gzip;q=0", "gzip;q=0, *", "*, gzip;q=0", "gzip, br;q=0", "br, gzip;q=0", "gzip;q=0.5, zstd", "x-gzip"}
 CONSTANT Statuses = {200, 204, 206, 304, 404}
 CONSTANT PreCEs = {"none", "gzip", "br", "zstd", "deflate", "identity"}
 CONSTANT ETags = {"none", "strong", "weak"}
